@@ -473,6 +473,36 @@ func cmdCheck(args []string) int {
 			preSolved[o] = true
 		}
 	}
+	// field shapes relied on by reflection-based code
+	for _, fs := range p.cs.FieldShapes {
+		if !hasTag(fs.Tags, *prop) {
+			continue
+		}
+		pk := p.byPath[fs.Pkg]
+		if pk == nil {
+			continue
+		}
+		scope := pk.Types.Scope()
+		for _, tn := range scope.Names() {
+			obj, ok := scope.Lookup(tn).(*types.TypeName)
+			if !ok {
+				continue
+			}
+			stt, ok := obj.Type().Underlying().(*types.Struct)
+			if !ok || stt.NumFields() <= fs.Index || stt.Field(fs.Index).Name() != fs.Name {
+				continue
+			}
+			f := stt.Field(fs.Index)
+			got := types.TypeString(f.Type(), func(q *types.Package) string { return q.Name() })
+			o := &Obligation{Name: fmt.Sprintf("fieldshape/%s[%d]/%s", fs.Name, fs.Index, tn), Class: "frame-scan", Func: tn, Tags: fs.Tags, Expect: "unsat", Src: fmt.Sprintf("fieldshape %d %s : %s", fs.Index, fs.Name, fs.Type), Pos: p.fset.Position(f.Pos()).String()}
+			o.Result = &SolveResult{Status: "unsat", Solver: "types-scan"}
+			if got != fs.Type && got != strings.ReplaceAll(fs.Type, "any", "interface{}") {
+				o.Result = &SolveResult{Status: "sat", Solver: "types-scan", Output: tn + "." + fs.Name + " has type " + got + ", not " + fs.Type}
+			}
+			all = append(all, o)
+			preSolved[o] = true
+		}
+	}
 	// reference walks: the traversal reads every field that can hold a reference
 	for _, rw := range p.cs.RefWalks {
 		if !hasTag(rw.Tags, *prop) {
@@ -752,6 +782,28 @@ func cmdCheck(args []string) int {
 		solveList = append(solveList, o)
 	}
 	solveAll(solveList, *workers, budget, false)
+	// An undecided obligation may be a casualty of machine load (a dozen workers racing three
+	// solvers each): the undecided ones are tried once more, two at a time, with three times the
+	// quick budget (the thorough budget is kept).
+	// A refuted obligation (sat) is never retried.
+	var retry []*Obligation
+	for _, o := range solveList {
+		if o.Expect == "unsat" && o.Result != nil && (o.Result.Status == "unknown" || o.Result.Status == "timeout") {
+			retry = append(retry, o)
+		}
+	}
+	if n := len(retry); n > 0 && n <= 16 {
+		for _, o := range retry {
+			o.Result = nil
+		}
+		rb := budget
+		if *tier != "thorough" {
+			rb = 3 * budget
+		}
+		stageScale = 4
+		solveAll(retry, 2, rb, false)
+		stageScale = 1
+	}
 
 	// thorough: cross-check every discharged obligation with the whole portfolio
 	disagreements := 0
